@@ -1,4 +1,5 @@
-(* CompactionProofs.v — theorems about the compaction model (Compaction.v). *)
+(* CompactionBeforeProofs.v — the model of the code BEFORE the fixes (CompactionBefore.v): the
+   executor lemmas and the witnesses that refuted C12 then. *)
 From Coq Require Import Lia Sorted.
 From KV Require MemtableProofs.
 From KV Require Import CompactionBefore.
@@ -662,438 +663,6 @@ Proof.
   cbv zeta in H. rewrite tomb_w_keep in H. discriminate.
 Qed.
 
-(* ---------- every file of every reachable directory is strictly ascending ---------- *)
-
-Module MP := MemtableProofs.
-
-Definition mt_ok (m : memtable) : Prop := MP.sorted (mt_entries m).
-Definition file_ok (t : sst) : Prop := asc (s_entries t).
-Definition dfile_ok (f : dfile) : Prop := asc (d_entries f).
-
-Lemma asc_snoc : forall l x, asc l -> (forall y, In y l -> bcmp (sk y) (sk x) = Lt) -> asc (l ++ [x]).
-Proof.
-  induction l; simpl; intros. repeat constructor.
-  apply asc_cons_inv in H. destruct H. apply asc_cons.
-  - apply IHl; auto.
-  - unfold above in *. rewrite Forall_forall in *. intros z Hz. apply in_app_iff in Hz.
-    destruct Hz as [Hz|[<-|[]]]; auto.
-Qed.
-
-Lemma asc_app_inv : forall a b, asc (a ++ b) -> asc a /\ asc b.
-Proof.
-  induction a; simpl; intros. split; auto. constructor.
-  apply asc_cons_inv in H. destruct H. destruct (IHa _ H). split; auto.
-  apply asc_cons; auto. unfold above in *. rewrite Forall_forall in *. intros. apply H0.
-  apply in_or_app. auto.
-Qed.
-
-Lemma asc_concat_each : forall l, asc (concat l) -> Forall asc l.
-Proof.
-  induction l; simpl; intros. constructor. apply asc_app_inv in H. destruct H. constructor; auto.
-Qed.
-
-Lemma sk_to_sentry : forall x, sk (to_sentry x) = mk x.
-Proof. destruct x; auto. Qed.
-
-Lemma asc_last_max : forall l last y, asc (l ++ [last]) -> In y l -> bcmp (sk y) (sk last) = Lt.
-Proof.
-  induction l; simpl; intros. tauto.
-  apply asc_cons_inv in H. destruct H. destruct H0.
-  - subst. unfold above in H1. rewrite Forall_forall in H1. apply H1. apply in_or_app. simpl. auto.
-  - eapply IHl; eauto.
-Qed.
-
-(* flushMemTable's collection loop on a table sorted by (key up, sequence down): one entry per
-   key, keys strictly ascending *)
-Lemma collect_aux_asc : forall l acc,
-  MP.sorted l -> asc (rev acc) ->
-  (forall last acc', acc = last :: acc' -> Forall (fun x => bcmp (sk last) (mk x) <> Gt) l) ->
-  asc (collect_aux acc l).
-Proof.
-  induction l as [|x r IH]; simpl; intros acc Hs Ha Hl; auto.
-  apply MP.sorted_cons_inv in Hs. destruct Hs as [Hs Hx].
-  assert (Hxr : Forall (fun y => bcmp (mk x) (mk y) <> Gt) r).
-  { rewrite Forall_forall in *. intros y Hy. apply Hx in Hy. apply MP.ele_iff in Hy.
-    destruct Hy as [Hy|[Hy _]]. rewrite Hy. congruence. rewrite Hy, cb_refl. congruence. }
-  destruct acc as [|last acc'].
-  - apply IH; auto. simpl. repeat constructor.
-    intros. inversion H; subst. rewrite sk_to_sentry. auto.
-  - specialize (Hl _ _ eq_refl). inversion Hl as [|? ? Hlx Hlr]; subst.
-    simpl in Ha.
-    destruct (beq (sk last) (mk x)) eqn:E.
-    + apply beq_iff in E.
-      destruct (sseq last <? mseq x).
-      * apply IH; auto.
-        -- simpl. apply asc_snoc. apply asc_app_inv in Ha. tauto.
-           intros y Hy. rewrite sk_to_sentry, <- E. eapply asc_last_max; eauto.
-        -- intros. inversion H; subst. rewrite sk_to_sentry. auto.
-      * apply IH; auto. intros. inversion H; subst. rewrite E. auto.
-    + assert (Hlt : bcmp (sk last) (mk x) = Lt).
-      { destruct (bcmp (sk last) (mk x)) eqn:C; auto; try congruence.
-        apply cb_eq in C. rewrite C in E. rewrite (proj2 (beq_iff _ _) eq_refl) in E. discriminate. }
-      apply IH; auto.
-      * simpl. apply asc_snoc; auto. intros y Hy. rewrite sk_to_sentry.
-        apply in_app_iff in Hy. destruct Hy as [Hy|[<-|[]]]; auto.
-        eapply cb_lt_trans; eauto. eapply asc_last_max; eauto.
-      * intros. inversion H; subst. rewrite sk_to_sentry. auto.
-Qed.
-
-Lemma collect_asc : forall l, MP.sorted l -> asc (collect l).
-Proof.
-  intros. unfold collect. apply collect_aux_asc; auto. constructor. intros. discriminate.
-Qed.
-
-Lemma filter_sorted : forall f l, MP.sorted l -> MP.sorted (filter f l).
-Proof.
-  intros. apply MP.sorted_strong. apply MP.sorted_strong in H.
-  induction H; simpl. constructor. destruct (f a); auto. constructor; auto.
-  rewrite Forall_forall in *. intros. apply H0. apply filter_In in H1. tauto.
-Qed.
-
-Lemma mt_add_ok : forall m e, mt_ok m -> mt_ok (mt_add m e).
-Proof. unfold mt_ok, mt_add. intros. destruct (mt_imm m); simpl; auto. apply MP.insert_sorted; auto. Qed.
-
-Lemma mt_empty_ok : mt_ok mt_empty.
-Proof. unfold mt_ok. simpl. constructor. Qed.
-
-Record eng_ok (e : st) : Prop := mkEO {
-  eo_active : mt_ok (active e);
-  eo_pending : Forall mt_ok (pending e);
-  eo_ssts : Forall file_ok (ssts e)
-}.
-
-Lemma pool_add_ok : forall e m, eng_ok e -> eng_ok (pool_add e m).
-Proof. intros e m [A B C]. constructor; simpl; auto. apply mt_add_ok; auto. Qed.
-
-Lemma maybe_schedule_ok : forall e, eng_ok e -> eng_ok (maybe_schedule e).
-Proof.
-  unfold maybe_schedule. intros e [A B C]. destruct (flush_pending e). 2: constructor; auto.
-  constructor; simpl; auto. apply mt_empty_ok. apply Forall_app. split; auto.
-Qed.
-
-Lemma upd_wal_ok : forall e n f, eng_ok e -> eng_ok (upd_wal e n f).
-Proof. intros e n f [A B C]. constructor; auto. Qed.
-Lemma set_last_ok : forall e n, eng_ok e -> eng_ok (set_last e n).
-Proof. intros e n [A B C]. constructor; auto. Qed.
-
-Lemma fold_add_ok : forall (ops : list bop) q s, eng_ok s ->
-  eng_ok (fold_left (fun a o => set_last (pool_add a (bop_mentry q o)) q) ops s).
-Proof. induction ops; simpl; auto. intros. apply IHops. apply set_last_ok, pool_add_ok; auto. Qed.
-
-Lemma apply_batch_ok : forall e ops, eng_ok e -> eng_ok (fst (apply_batch e ops)).
-Proof.
-  unfold apply_batch. intros. destruct ops as [|b ops']; auto.
-  destruct (MaxSeq <=? wal_next e); auto.
-  cbn [fst]. apply maybe_schedule_ok, fold_add_ok, upd_wal_ok; auto.
-Qed.
-
-Lemma put_ok : forall e k v, eng_ok e -> eng_ok (fst (put e k v)).
-Proof.
-  unfold put. intros. destruct (MaxSeq <=? wal_next e); auto. simpl.
-  apply maybe_schedule_ok, set_last_ok, pool_add_ok, upd_wal_ok; auto.
-Qed.
-Lemma del_ok : forall e k, eng_ok e -> eng_ok (fst (del e k)).
-Proof.
-  unfold del. intros. destruct (MaxSeq <=? wal_next e); auto. simpl.
-  apply maybe_schedule_ok, set_last_ok, pool_add_ok, upd_wal_ok; auto.
-Qed.
-Lemma tx_commit_ok : forall e ops, eng_ok e -> eng_ok (fst (tx_commit e ops)).
-Proof. unfold tx_commit. intros. destruct (buffer_ops ops); auto. apply apply_batch_ok; auto. Qed.
-
-Lemma flush_table_ok : forall e m, eng_ok e -> mt_ok m ->
-  eng_ok (flush_table e m) /\ pending (flush_table e m) = pending e /\ active (flush_table e m) = active e.
-Proof.
-  unfold flush_table. intros e m [A B C] Hm. destruct (mt_size m =? 0). repeat split; auto.
-  destruct (collect (mt_iter_entries m)) eqn:E. repeat split; auto.
-  repeat split; simpl; auto. apply Forall_app. split; auto. constructor; auto.
-  unfold file_ok. simpl. rewrite <- E. apply collect_asc. apply filter_sorted. auto.
-Qed.
-
-Lemma flush_ok : forall e, eng_ok e -> eng_ok (flush e).
-Proof.
-  unfold flush. intros e H. destruct (pending e) eqn:P.
-  - destruct (0 <? mt_size (active e)); auto.
-    apply flush_table_ok. apply upd_wal_ok; auto. destruct H; auto.
-  - assert (Hp : Forall mt_ok (m :: l)) by (rewrite <- P; destruct H; auto).
-    assert (H0 : eng_ok (rotate (clear_pending e))).
-    { destruct H. constructor; simpl; auto. }
-    revert H0 Hp. generalize (rotate (clear_pending e)). generalize (m :: l). clear.
-    induction l; simpl; auto. intros. inversion Hp; subst. apply IHl; auto.
-    apply flush_table_ok; auto.
-Qed.
-
-Lemma sst_insert_in' : forall x l t, In t (sst_insert x l) <-> t = x \/ In t l.
-Proof.
-  induction l; simpl; intros. intuition.
-  destruct (sst_le x a); simpl. intuition. rewrite IHl. intuition.
-Qed.
-Lemma sst_sort_in' : forall l t, In t (sst_sort l) <-> In t l.
-Proof.
-  induction l; simpl; intros. tauto. rewrite sst_insert_in', IHl. intuition.
-Qed.
-
-Lemma recover_tables_ok : forall c es tables maxseq r q,
-  Forall mt_ok tables -> recover_tables c es tables maxseq = Some (r, q) -> Forall mt_ok r.
-Proof.
-  induction es; simpl; intros. inversion H0; subst. auto.
-  destruct tables as [|cur older]; try discriminate. inversion H; subst.
-  destruct (c_memsize c <=? mt_size cur).
-  - destruct (c_maxmem c <=? _); try discriminate.
-    eapply IHes in H0; eauto. constructor; [|constructor; auto].
-    destruct (wentry_mentry a). apply mt_add_ok, mt_empty_ok. apply mt_empty_ok.
-  - eapply IHes in H0; eauto. constructor; auto. destruct (wentry_mentry a); auto. apply mt_add_ok; auto.
-Qed.
-
-Lemma reopen_ok : forall e, Forall file_ok (ssts e) -> eng_ok (reopen e).
-Proof.
-  unfold reopen. intros.
-  assert (S : Forall file_ok (sst_sort (ssts e))).
-  { rewrite Forall_forall in *. intros. apply H. apply sst_sort_in'. auto. }
-  destruct (recover_tables _ _ _ _) as [[tbls maxseq]|] eqn:R.
-  - apply recover_tables_ok in R. 2: constructor; [apply mt_empty_ok|constructor].
-    constructor; simpl; auto.
-    + destruct tbls. apply mt_empty_ok. inversion R; auto.
-    + rewrite Forall_forall in *. intros m Hm. apply in_map_iff in Hm. destruct Hm as (m0 & <- & Hm0).
-      unfold mt_ok. simpl. apply R. apply in_rev in Hm0. destruct tbls; simpl in *. tauto. auto.
-  - constructor; simpl; auto. apply mt_empty_ok.
-Qed.
-
-(* tasks take their inputs from the directory *)
-Lemma dinsert_in : forall x l t, In t (dinsert x l) <-> t = x \/ In t l.
-Proof.
-  induction l; simpl; intros. intuition.
-  destruct (dfile_le x a); simpl. intuition. rewrite IHl. intuition.
-Qed.
-Lemma dsort_in : forall l t, In t (dsort l) <-> In t l.
-Proof. induction l; simpl; intros. tauto. rewrite dinsert_in, IHl. intuition. Qed.
-
-Lemma level_files_incl : forall L dir, incl (level_files L dir) dir.
-Proof. unfold level_files, incl. intros. apply filter_In in H. destruct H. apply dsort_in; auto. Qed.
-
-Lemma firstn_incl : forall (A : Type) n (l : list A), incl (firstn n l) l.
-Proof. induction n; destruct l; simpl; unfold incl; simpl; intros; auto. tauto. destruct H; auto. right. apply IHn; auto. Qed.
-
-Lemma select_levels_incl : forall n L r dir t, select_levels n L r dir = Some t -> incl (t_inputs t) dir.
-Proof.
-  induction n; simpl; intros. discriminate.
-  destruct (level_size L dir =? 0). eauto.
-  destruct ((level_size (L + 1) dir =? 0) && negb (isnil_files (level_files L dir))).
-  - unfold select_promotion in H. destruct (level_files L dir) eqn:E; inversion H; subst. simpl.
-    intros x [<-|[]]. apply (level_files_incl L). rewrite E. simpl; auto.
-  - destruct (r * level_size (L + 1) dir <=? level_size L dir). 2: eauto.
-    unfold select_overlapping in H. destruct (level_files L dir) eqn:E; inversion H; subst. simpl.
-    intros x [<-|Hx]. apply (level_files_incl L). rewrite E. simpl; auto.
-    apply filter_In in Hx. destruct Hx. apply (level_files_incl (L + 1)); auto.
-Qed.
-
-Lemma select_incl : forall maxmem k dir t, select maxmem k dir = Some t -> incl (t_inputs t) dir.
-Proof.
-  unfold select. intros. destruct (maxmem <=? _).
-  - unfold select_l0 in H. destruct (_ <? 2); try discriminate.
-    destruct (l0_range _) as [mn mx]. inversion H; subst. simpl.
-    intros x Hx. apply in_app_iff in Hx. destruct Hx.
-    + apply (level_files_incl 0). eapply firstn_incl; eauto.
-    + apply filter_In in H0. destruct H0. apply (level_files_incl 1); auto.
-  - eapply select_levels_incl; eauto.
-Qed.
-
-Lemma range_inputs_incl : forall n L lo hi dir, incl (range_inputs n L lo hi dir) dir.
-Proof.
-  induction n; simpl; intros; intros x Hx.
-  - apply filter_In in Hx. destruct Hx. apply (level_files_incl L); auto.
-  - apply in_app_iff in Hx. destruct Hx. apply filter_In in H. destruct H. apply (level_files_incl L); auto.
-    eapply IHn; eauto.
-Qed.
-
-Lemma select_range_incl : forall lo hi dir t, select_range lo hi dir = Some t -> incl (t_inputs t) dir.
-Proof.
-  unfold select_range. intros. destruct (range_inputs _ _ _ _ _) eqn:E; inversion H; subst. simpl.
-  rewrite <- E. apply range_inputs_incl.
-Qed.
-
-Lemma task_sources_ok : forall t dir, Forall dfile_ok dir -> incl (t_inputs t) dir ->
-  Forall asc (task_sources t).
-Proof.
-  unfold task_sources. intros. rewrite Forall_forall in *. intros x Hx.
-  apply in_map_iff in Hx. destruct Hx as (f & <- & Hf). apply filter_In in Hf. destruct Hf.
-  apply H. auto.
-Qed.
-
-Lemma name_outputs_entries : forall target outs i clock sizes,
-  map d_entries (name_outputs target i clock sizes outs) = outs.
-Proof. induction outs; simpl; intros; auto. f_equal. auto. Qed.
-
-Lemma name_outputs_Forall : forall (P : list sentry -> Prop) (Q : dfile -> Prop) target clock sizes,
-  (forall es i, P es -> Q (mkD (mkSst target (N.of_nat i + 1) (clock + N.of_nat i) es) (nth_size i sizes))) ->
-  forall outs i, Forall P outs -> Forall Q (name_outputs target i clock sizes outs).
-Proof. induction outs; simpl; intros; constructor; inversion H0; subst; auto. Qed.
-
-(* the outputs of a task whose inputs are ascending: ascending across the files in the order
-   they are numbered; every file non-empty, at most SSTableMaxSize entries; all on the target
-   level *)
-Theorem task_outputs_sorted : forall keep k clock sizes t dir,
-  Forall dfile_ok dir -> incl (t_inputs t) dir ->
-  let outs := task_outputs keep k clock sizes t in
-  asc (concat (map d_entries outs)) /\
-  Forall dfile_ok outs /\
-  (1 <= cc_sstmax k -> Forall (fun f => chunk_ok (cc_sstmax k) (d_entries f)) outs) /\
-  Forall (fun f => d_level f = t_target t) outs.
-Proof.
-  intros. unfold outs, task_outputs.
-  pose proof (task_sources_ok t dir H H0) as Hs.
-  rewrite name_outputs_entries. split; [|split; [|split]].
-  - apply exec_outputs_sorted; auto.
-  - apply name_outputs_Forall with (P := asc); auto.
-    apply asc_concat_each. apply exec_outputs_sorted; auto.
-  - intro. apply name_outputs_Forall with (P := chunk_ok (cc_sstmax k)); auto.
-    apply exec_outputs_chunks; auto.
-  - apply name_outputs_Forall with (P := fun _ => True); auto.
-    apply Forall_forall. auto.
-Qed.
-
-Record cst_ok (s : cst) : Prop := mkCO { co_eng : eng_ok (eng s); co_disk : Forall dfile_ok (disk s) }.
-
-Lemma with_sizes_ok : forall l i z, Forall file_ok l -> Forall dfile_ok (with_sizes i z l).
-Proof. induction l; simpl; intros; constructor; inversion H; subst; auto. Qed.
-
-Lemma skipn_Forall : forall (A : Type) (P : A -> Prop) n l, Forall P l -> Forall P (skipn n l).
-Proof. induction n; destruct l; simpl; auto. intros. inversion H; auto. Qed.
-
-Lemma cflush_ok : forall s z, cst_ok s -> cst_ok (cflush s z).
-Proof.
-  intros s z [A B]. pose proof (flush_ok _ A). constructor; simpl; auto.
-  apply Forall_app. split; auto. apply with_sizes_ok. apply skipn_Forall. destruct H; auto.
-Qed.
-
-Lemma remove_files_ok : forall ins dir, Forall dfile_ok dir -> Forall dfile_ok (remove_files ins dir).
-Proof.
-  unfold remove_files. intros. rewrite Forall_forall in *. intros. apply filter_In in H0. destruct H0. auto.
-Qed.
-
-Lemma set_clock_ok : forall e c, eng_ok e -> eng_ok (set_clock e c).
-Proof. intros e c [A B C]. constructor; auto. Qed.
-
-Lemma cstep_ok : forall o s, cst_ok s -> cst_ok (cstep s o).
-Proof.
-  destruct o; simpl; intros s0 [A B]; auto.
-  - unfold cput. pose proof (put_ok (eng s0) k v A). destruct (put (eng s0) k v). constructor; auto.
-  - unfold cdel. pose proof (del_ok (eng s0) k A). destruct (del (eng s0) k). constructor; auto.
-  - unfold cbatch. pose proof (apply_batch_ok (eng s0) ops A). destruct (apply_batch (eng s0) ops). constructor; auto.
-  - unfold ccommit. pose proof (tx_commit_ok (eng s0) ops A). destruct (tx_commit (eng s0) ops). constructor; auto.
-  - apply cflush_ok. constructor; auto.
-  - unfold cfull.
-    assert (H1 : cst_ok (cflush s0 sizes)) by (apply cflush_ok; constructor; auto).
-    destruct (pending (eng s0)).
-    + destruct H1. constructor; auto.
-    + pose proof (cflush_ok _ (skipn (nfresh s0) sizes) H1) as [C D]. constructor; auto.
-  - unfold ctrigger. destruct (select _ _ _) eqn:E. 2: constructor; auto.
-    constructor; simpl. apply set_clock_ok; auto.
-    apply Forall_app. split. apply remove_files_ok; auto.
-    eapply task_outputs_sorted; eauto. eapply select_incl; eauto.
-  - unfold crange. destruct (select_range _ _ _) eqn:E. 2: constructor; auto.
-    constructor; simpl. apply set_clock_ok; auto.
-    apply Forall_app. split. apply remove_files_ok; auto.
-    eapply task_outputs_sorted; eauto. eapply select_range_incl; eauto.
-  - unfold creopen. constructor; simpl; auto.
-    apply reopen_ok. simpl. destruct retire; simpl; rewrite Forall_forall in *; intros x Hx;
-      apply in_map_iff in Hx; destruct Hx as (f & <- & Hf); apply B; auto.
-  - constructor; auto.
-Qed.
-
-(* in every reachable state — any workload, any sequence of flushes, automatic/triggered/range
-   compactions and restarts — every file of the SST directory is strictly ascending by key
-   (sorted, no duplicate keys) *)
-Theorem reachable_files_sorted : forall c k ops, cst_ok (crun c k ops).
-Proof.
-  intros. unfold crun.
-  assert (cst_ok (cinit c k)).
-  { constructor; simpl. constructor; simpl; auto. apply mt_empty_ok. constructor. }
-  revert H. generalize (cinit c k). induction ops; simpl; auto. intros. apply IHops. apply cstep_ok; auto.
-Qed.
-
-(* ---------- reopening is stable ---------- *)
-
-Lemma get_fields : forall e1 e2, active e1 = active e2 -> imms e1 = imms e2 -> ssts e1 = ssts e2 ->
-  forall k, get e1 k = get e2 k.
-Proof. intros. unfold get, mem_layers. rewrite H, H0, H1. auto. Qed.
-
-Lemma reopen_twice : forall e D k, ssts e = D ->
-  get (reopen (set_ssts (reopen e) D)) k = get (reopen e) k.
-Proof.
-  intros e D k HD.
-  assert (exists f fs, match wal_files e with [] => [[]] | f => f end = f :: fs) as (f & fs & F).
-  { destruct (wal_files e); eauto. }
-  unfold reopen at 2 3. rewrite F.
-  destruct (recover_tables (cfg e) (concat (f :: fs)) [mt_empty] 0) as [[tbls maxseq]|] eqn:R.
-  - apply get_fields; unfold reopen; cbn [cfg wal_files ssts set_ssts]; rewrite R; simpl; rewrite ?HD; auto.
-  - apply get_fields; unfold reopen; cbn [cfg wal_files ssts set_ssts]; simpl; rewrite ?HD; auto.
-Qed.
-
-(* a second reopen (log kept) without anything in between reads exactly what the first one
-   read: what a reopen shows is a function of the directory and the log alone *)
-Theorem reopen_stable : forall s r k, cget (creopen (creopen s r) false) k = cget (creopen s r) k.
-Proof.
-  intros. unfold cget, creopen. simpl.
-  set (e1 := if r then upd_wal (eng s) (wal_next (eng s)) (skipn (retirable s) (wal_files (eng s))) else eng s).
-  apply (reopen_twice (set_ssts e1 (map d_sst (disk s)))). auto.
-Qed.
-
-(* ---------- non-vacuity ---------- *)
-
-(* merge: three sources, the first holding a key wins; ascending result *)
-Example merge_example :
-  merge [[mkS ka 7 (Some [1]); mkS kx 9 None]; [mkS ka 3 (Some [2]); mkS kb 4 (Some [3])]; [mkS kx 1 (Some [4])]]
-  = [mkS ka 7 (Some [1]); mkS kb 4 (Some [3]); mkS kx 9 None].
-Proof. vm_compute. reflexivity. Qed.
-
-(* executor: the deletion marker of x is dropped (keep = false), outputs split after 1 entry *)
-Example exec_example :
-  exec_outputs (fun _ => false) 1
-    [[mkS ka 7 (Some [1]); mkS kx 9 None]; [mkS ka 3 (Some [2]); mkS kb 4 (Some [3])]; [mkS kx 1 (Some [4])]]
-  = [[mkS ka 0 (Some [1])]; [mkS kb 0 (Some [3])]].
-Proof. vm_compute. reflexivity. Qed.
-
-(* view_preserved applies: recency order newest first = [t3; t2; t1; t0]; the task merges t2 and
-   t1 listed newest first; t0 (older, behind) does not hold b, whose marker is dropped *)
-Example view_preserved_example :
-  let t3 := [mkS ka 9 (Some [9])] in
-  let t2 := [mkS kb 8 None; mkS kx 8 (Some [8])] in
-  let t1 := [mkS kb 5 (Some [5]); mkS kx 5 (Some [5])] in
-  let t0 := [mkS kx 1 (Some [1])] in
-  let outs := exec_outputs (fun _ => false) 10 [t2; t1] in
-  outs = [[mkS kx 0 (Some [8])]] /\
-  (forall k, In k [ka; kb; kx] -> read ([t3] ++ outs ++ [t0]) k = read [t3; t2; t1; t0] k).
-Proof.
-  split. vm_compute. reflexivity.
-  intros k [<-|[<-|[<-|[]]]]; vm_compute; reflexivity.
-Qed.
-
-Example view_preserved_hyps_example :
-  let t2 := [mkS kb 8 None; mkS kx 8 (Some [8])] in
-  let t1 := [mkS kb 5 (Some [5]); mkS kx 5 (Some [5])] in
-  let t0 := [mkS kx 1 (Some [1])] in
-  filter (has kx) [t2; t1; t0] = [] ++ filter (has kx) [t2; t1] ++ [t0] /\
-  filter (has kx) (exec_outputs (fun _ => false) 10 [t2; t1] ++ [t0]) =
-    [] ++ filter (has kx) (exec_outputs (fun _ => false) 10 [t2; t1]) ++ [t0].
-Proof. split; vm_compute; reflexivity. Qed.
-
-(* a tracked delete keeps its marker through a later compaction of the same process *)
-Example tombstone_tracked_example :
-  let s := crun cfg2 cc_off [CPut kx [1]; CFull []; CRange kx kx []; CPut ka [2]; CDel kx; CFull []; CRange ka ka []] in
-  keep_of (tracked s) kx = true /\
-  map (fun f => (d_level f, d_entries f)) (disk s) =
-    [(1, [mkS kx 0 (Some [1])]); (2, [mkS ka 0 (Some [2]); mkS kx 0 None])].
-Proof. vm_compute. auto. Qed.
-
-(* reachable_files_sorted on a run with splits and three kinds of compaction *)
-Example reachable_example :
-  let s := crun cfg2 (mkCC 2 2)
-    [CPut kx [1]; CPut ka [1]; CFull [100]; CPut kb [2]; CDel ka; CFull [100]; CTrigger [100; 100];
-     CPut kx [3]; CFull [500]; CTrigger [100]; CRange ka kx [100; 100]] in
-  map (fun f => (d_level f, s_num (d_sst f), map sk (d_entries f))) (disk s) =
-    [(2, 1, [ka; kb]); (2, 2, [kx])].
-Proof. vm_compute. reflexivity. Qed.
-
 (* file numbers restart at 1 after a reopen: the L0->L1 cycle takes the NEW 0_000001 and the old
    0_000002 and leaves the old 0_000003 in level 0; the next (range) compaction lists level 0
    before level 1, so the stale x=1 of the left-behind file beats the newer x=2 of level 1 *)
@@ -1110,16 +679,3 @@ Theorem refuted_shallower_older :
   lost_log (eng s) = false /\ cget s kx = Some [2] /\ cget (creopen s true) kx = Some [1].
 Proof. vm_compute. auto 6. Qed.
 
-(* ---------- the concrete reading of a directory is [read] under the name order ---------- *)
-
-(* what a database opened on the files alone reads = [read] with the tables consulted in the
-   reverse of the file-name order; for every reachable state (files ascending) *)
-Theorem disk_read_as_read : forall c k ops key,
-  let s := crun c k ops in
-  disk_read s key = read (map s_entries (rev (sst_sort (map d_sst (disk s))))) key.
-Proof.
-  intros. unfold disk_read, ssts_read. apply ssts_get_read.
-  pose proof (co_disk _ (reachable_files_sorted c k ops)) as H. fold s in H.
-  rewrite Forall_forall in *. intros t Ht. apply in_rev in Ht. apply (proj1 (sst_sort_in' _ _)) in Ht.
-  apply in_map_iff in Ht. destruct Ht as (f & <- & Hf). apply H in Hf. exact Hf.
-Qed.
